@@ -437,3 +437,12 @@ Definition from_stereo_final (fixs : stereo_labels -> stereo_labels) (isH : Z ->
                                                                elif (n, m) in cis_trans: chiral
    [sizes] = the sizes of the rings through the first atom of the bond *)
 Definition ring_bond_chiral (sizes : list Z) : bool := negb (existsb (fun x => x <? 8) sizes).
+
+(* the entry test of MoleculeStereo._chiral_morgan (the atom order fix_stereo and the chirality perception work with):
+     if not stereo_atoms and not stereo_bonds: return self.atoms_order       -- the plain, stereo-blind order
+   otherwise the order is refined by the labels.  [atoms] = labelled atoms, [bond_atoms] = atoms of labelled bonds. *)
+Definition uses_plain_order (atoms bond_atoms : list Z) : bool :=
+  match atoms, bond_atoms with
+  | [], [] => true
+  | _, _ => false
+  end.
